@@ -298,7 +298,7 @@ func copyView(r *api.LinuxResources) string {
 
 func runC14(c *ev.ChildEnv, res *ev.Result) {
 	g := newMgen(uint64(c.Seed), uint64(c.Batch)+1400)
-	n := tierN(c.Tier, 4000, 100000) / c.Batches
+	n := tierN(c.Tier, 4000, 600000) / c.Batches
 
 	// --- event masks: all 8191, exhaustively (batch 0 only)
 	if c.Batch == 0 {
